@@ -77,8 +77,16 @@ impl Sp for SimpleSpan {
         (self.start, self.end)
     }
 }
+pub const CTX_TAG: u32 = 4242;
+thread_local! {
+    /// set when a span of a with_context input is seen that does not carry the context (C10)
+    pub static BAD_CTX: std::cell::Cell<bool> = std::cell::Cell::new(false);
+}
 impl Sp for SimpleSpan<usize, u32> {
     fn se(&self) -> (usize, usize) {
+        if self.context != CTX_TAG {
+            BAD_CTX.with(|b| b.set(true));
+        }
         (self.start, self.end)
     }
     fn tag(&self) -> u32 {
@@ -627,6 +635,129 @@ impl<'s> Kind<'s> for SpIter {
     type Spn = SimpleSpan;
     no_slices!();
     no_value_prims!();
+}
+
+// ---------------------------------------------------------------------------------------------
+// further input kinds (C10): arrays, streams over a counting iterator (plain / boxed / exact-size
+// boxed), IoInput, with_context, map_span
+
+impl<'s, T: Tk, const N: usize> Kind<'s> for &'s [T; N] {
+    value_kind_prims!();
+    type Tok = T;
+    type Spn = SimpleSpan;
+    const HAS_SLICE: bool = true;
+    fn slice_node<R: Er<'s, Self>>(p: BP<'s, Self, R>) -> BP<'s, Self, R> {
+        p.to_slice().map(tok_slice_val::<T>).boxed()
+    }
+    fn map_slice_node<R: Er<'s, Self>>(p: BP<'s, Self, R>) -> BP<'s, Self, R> {
+        p.map_with(|v, e| Val::pair(tok_slice_val::<T>(e.slice()), v)).boxed()
+    }
+    fn slice_node_explicit<R: Er<'s, Self>>(p: BP<'s, Self, R>) -> BP<'s, Self, R> {
+        p.map_with(|_v, e| tok_slice_val::<T>(e.slice())).boxed()
+    }
+}
+
+/// A cloneable iterator over a token vector that logs every item it yields (by index) into a log
+/// shared by all its clones: "every item is pulled at most once and in order" <=> the log is
+/// 0, 1, 2, ... without repetition.
+#[derive(Clone)]
+pub struct CountIter {
+    toks: Rc<Vec<char>>,
+    i: usize,
+    pub log: Rc<std::cell::RefCell<Vec<u32>>>,
+}
+impl CountIter {
+    pub fn new(toks: &[char]) -> CountIter {
+        CountIter { toks: Rc::new(toks.to_vec()), i: 0, log: Rc::new(std::cell::RefCell::new(Vec::new())) }
+    }
+}
+impl Iterator for CountIter {
+    type Item = char;
+    fn next(&mut self) -> Option<char> {
+        let r = self.toks.get(self.i).copied();
+        if r.is_some() {
+            self.log.borrow_mut().push(self.i as u32);
+            self.i += 1;
+        }
+        r
+    }
+    fn size_hint(&self) -> (usize, Option<usize>) {
+        let n = self.toks.len() - self.i;
+        (n, Some(n))
+    }
+}
+impl ExactSizeIterator for CountIter {}
+
+pub type CountStream = chumsky::input::Stream<CountIter>;
+pub type BoxStream<'s> = chumsky::input::BoxedStream<'s, char>;
+pub type BoxExactStream<'s> = chumsky::input::BoxedExactSizeStream<'s, char>;
+impl<'s> Kind<'s> for CountStream {
+    type Tok = char;
+    type Spn = SimpleSpan;
+    no_slices!();
+    value_kind_prims!();
+}
+impl<'s> Kind<'s> for BoxStream<'s> {
+    type Tok = char;
+    type Spn = SimpleSpan;
+    no_slices!();
+    value_kind_prims!();
+}
+impl<'s> Kind<'s> for BoxExactStream<'s> {
+    type Tok = char;
+    type Spn = SimpleSpan;
+    no_slices!();
+    value_kind_prims!();
+}
+
+pub type IoIn = chumsky::input::IoInput<std::io::Cursor<Vec<u8>>>;
+impl<'s> Kind<'s> for IoIn {
+    type Tok = u8;
+    type Spn = SimpleSpan;
+    no_slices!();
+    value_kind_prims!();
+}
+
+pub type CtxSpan = SimpleSpan<usize, u32>;
+pub type WithCtxStr<'s> = chumsky::input::WithContext<CtxSpan, &'s str>;
+impl<'s> Kind<'s> for WithCtxStr<'s> {
+    value_kind_prims!();
+    type Tok = char;
+    type Spn = CtxSpan;
+    const HAS_SLICE: bool = true;
+    fn slice_node<R: Er<'s, Self>>(p: BP<'s, Self, R>) -> BP<'s, Self, R> {
+        p.to_slice().map(str_slice_val).boxed()
+    }
+    fn map_slice_node<R: Er<'s, Self>>(p: BP<'s, Self, R>) -> BP<'s, Self, R> {
+        p.map_with(|v, e| Val::pair(str_slice_val(e.slice()), v)).boxed()
+    }
+    fn slice_node_explicit<R: Er<'s, Self>>(p: BP<'s, Self, R>) -> BP<'s, Self, R> {
+        p.map_with(|_v, e| str_slice_val(e.slice())).boxed()
+    }
+}
+
+pub const SHIFT: usize = 1000;
+pub type MapSpanSlice<'s> = chumsky::input::MappedSpan<Shifted, &'s [char], fn(SimpleSpan) -> Shifted>;
+fn shift_span(s: SimpleSpan) -> Shifted {
+    Shifted(s.start + SHIFT, s.end + SHIFT)
+}
+pub fn map_span_slice<'s>(toks: &'s [char]) -> MapSpanSlice<'s> {
+    toks.map_span(shift_span as fn(SimpleSpan) -> Shifted)
+}
+impl<'s> Kind<'s> for MapSpanSlice<'s> {
+    value_kind_prims!();
+    type Tok = char;
+    type Spn = Shifted;
+    const HAS_SLICE: bool = true;
+    fn slice_node<R: Er<'s, Self>>(p: BP<'s, Self, R>) -> BP<'s, Self, R> {
+        p.to_slice().map(tok_slice_val::<char>).boxed()
+    }
+    fn map_slice_node<R: Er<'s, Self>>(p: BP<'s, Self, R>) -> BP<'s, Self, R> {
+        p.map_with(|v, e| Val::pair(tok_slice_val::<char>(e.slice()), v)).boxed()
+    }
+    fn slice_node_explicit<R: Er<'s, Self>>(p: BP<'s, Self, R>) -> BP<'s, Self, R> {
+        p.map_with(|_v, e| tok_slice_val::<char>(e.slice())).boxed()
+    }
 }
 
 // ---------------------------------------------------------------------------------------------
